@@ -462,7 +462,7 @@ func (g *vGen) pickNames(s *vSim, parent *node) []string {
 		out = append(out, nm)
 	}
 	if r.Intn(25) == 0 {
-		out = append(out, []string{"", "A", "-", "Zq"}[r.Intn(4)])
+		out = append(out, []string{"", "A", "%", "Zq"}[r.Intn(4)])
 	}
 	sort.Strings(out)
 	return out
@@ -479,7 +479,13 @@ func (g *vGen) simCase(perturb bool, steps int) {
 	s := newVSim(time.Duration(inits[pi]), time.Duration(maxs[pi]))
 	fmt.Fprintf(g.w, "reset %s init=%d max=%d pert=%v %s\n", cid, inits[pi], maxs[pi], perturb, s.dump())
 	emit := func(op, body string) {
-		fmt.Fprintf(g.w, "%s %s %s %s\n", op, cid, body, s.dump())
+		// fromContext takes sup.mu and then calls nodeByDN: when that panics the mutex stays locked for good
+		lk := 1
+		if s.sup.mu.TryLock() {
+			lk = 0
+		}
+		s.sup.mu.Unlock()
+		fmt.Fprintf(g.w, "%s %s %s lk=%d %s\n", op, cid, body, lk, s.dump())
 	}
 	for step := 0; step < steps && s.bad == ""; step++ {
 		type cand struct {
@@ -569,9 +575,9 @@ func (g *vGen) simCase(perturb bool, steps int) {
 				if st == nodeStateDead || st == nodeStateCanceled {
 					n.ctxC()
 				}
-				emit("set", fmt.Sprintf("dn=%s st=%d", dn, int(st)))
+				emit("set", fmt.Sprintf("dn=%s st=%d res=ok", dn, int(st)))
 			})
-			add(2, func() { n.ctxC(); emit("cancel", "dn="+dn) })
+			add(2, func() { n.ctxC(); emit("cancel", "dn="+dn+" res=ok") })
 			add(3, func() {
 				// "the goroutine of this node has returned", expressed through the real code: a nil exit of a DONE node
 				old := n.state
